@@ -10,7 +10,7 @@ Nothing in this module decides the property: it only executes a history and retu
 (events per connection object with creator pid / current pid, op results, exceptions).  The judge is in
 vlib/c36_judge.py.
 """
-import os, sys, json, time, signal, select, sqlite3, traceback, threading, errno
+import os, sys, gc, json, time, signal, select, sqlite3, traceback, threading, errno
 
 CHILD_TIMEOUT = 30.0     # watchdog inside C / G (seconds; generous: the machine may be heavily loaded)
 PARENT_TIMEOUT = 150.0   # watchdog inside P
@@ -158,10 +158,12 @@ def fork_and_report(body, timeout_state_seconds):
     """fork; in the child run body() -> JSON-able dict, write it to a pipe, os._exit.  Returns (pid, read_fd)."""
     r, w = os.pipe()
     sys.stdout.flush(); sys.stderr.flush()
+    gc.freeze()          # keep the cyclic GC of the forked process away from inherited objects (copy-on-write faults)
     pid = os.fork()
     if pid == 0:
         code = 0
         try:
+            gc.disable()     # short-lived process; finalisation of the recording objects is by reference count
             os.close(r)
             state = {}
             try:
@@ -391,7 +393,14 @@ def get_world(workdir):
                 pass
         w = _WORLDS[workdir] = SqliteWorld(fn)
         w.filename = fn
+        # warm pony's per-Database SQL/translation caches once (inherited by every P), then leave no connection behind
+        for name, label in (('write', 'warm'), ('read', None), ('getconn', None)):
+            rec = w.op('H', name, label)
+            assert rec['ok'], rec
+        with w.orm.db_session:
+            w.db.execute('delete from e')
         w.db.disconnect()
+        del EVENTS[:]
     return w
 
 
@@ -636,19 +645,25 @@ class RecSessionPool(RecBase):
         _pev(con, 'drop')
 
 
+def load_oracle_provider():
+    """import pony's Oracle provider on top of the stub cx_Oracle package (vlib/stubs, shared with other checks) whose
+    SessionPool is replaced, in this process only, by the recording class"""
+    stubs = os.path.join(os.path.dirname(os.path.abspath(__file__)), 'stubs')
+    if stubs not in sys.path:
+        sys.path.append(stubs)        # only inside this check's processes
+    import cx_Oracle
+    cx_Oracle.SessionPool = RecSessionPool      # attribute of the imported stub module object (file untouched)
+    from pony.orm.dbproviders import oracle
+    assert oracle.cx_Oracle is cx_Oracle
+    return oracle
+
+
 def make_pool(kind):
     if kind == 'generic':
         from pony.orm.dbapiprovider import Pool
         return Pool(FakeDbapi(), 'dsn', user='u')
     if kind == 'oracle':
-        stubs = os.path.join(os.path.dirname(os.path.abspath(__file__)), 'stubs')
-        if stubs not in sys.path:
-            sys.path.append(stubs)        # only inside this check's processes
-        import cx_Oracle
-        cx_Oracle.SessionPool = RecSessionPool      # attribute of the imported stub module object (file untouched)
-        from pony.orm.dbproviders import oracle
-        assert oracle.cx_Oracle is cx_Oracle
-        return oracle.OraPool(user='u', password='p', dsn='d', min=1, max=2, increment=1)
+        return load_oracle_provider().OraPool(user='u', password='p', dsn='d', min=1, max=2, increment=1)
     raise ValueError(kind)
 
 
@@ -657,7 +672,7 @@ def pool_history(case):
     'connect', 'use', 'release', 'drop', 'disconnect', 'gc', ['fork', [ops]].
     The harness only releases/drops a connection that connect() returned IN THE SAME PROCESS
     (held is cleared right after each fork, like a child that abandons the inherited session state)."""
-    import gc
+    del POOL_EVENTS[:]
     pool = make_pool(case['pool'])
     held = {}
 
@@ -672,10 +687,8 @@ def pool_history(case):
 
                     def body(sub=sub, gwho=gwho, mark=mark):
                         held.clear()
-                        gc.collect()
                         recs = []
                         run(gwho, sub, recs)
-                        gc.collect()
                         return {'records': recs, 'events': POOL_EVENTS[mark:]}
                     pid, fd = fork_and_report(body, CHILD_TIMEOUT)
                     rec['sub'] = collect(pid, fd, CHILD_TIMEOUT + 3)
@@ -708,7 +721,7 @@ def pool_history(case):
                     else:
                         pool.disconnect()
                 elif op == 'gc':
-                    gc.collect()
+                    gc.collect()       # only objects created after the last gc.freeze() are examined
                 else:
                     raise ValueError(op)
                 rec['ok'] = True
@@ -722,5 +735,4 @@ def pool_history(case):
 
     records = []
     run('P', case['ops'], records)
-    gc.collect()
     return {'pids': {'P': os.getpid()}, 'records': records, 'events': list(POOL_EVENTS)}
